@@ -4,6 +4,7 @@
    input : (op ...)
      op = (n0 n<t> n<isComment> x<single line> n<cap the runtime gives a reallocation>)
         | (n1 n<t> idopt) | (n2 n<t> typeopt) | (n3 n<t> z<retry>) | (n4 n<t>) Clone | (n5 n<t>) reset
+        | (n7 n<t> x<line> n<cap>)  m_t.UnmarshalText("data: <line>\n\n")
         | (n6 n<t> n<replayer: 0 finite auto, 1 valid auto, 2 finite manual, 3 valid manual>)  Put; with automatic IDs the
           returned copy joins the family; with explicit IDs (and for every rejected Put) nothing at all happens to any message
    output: (((arropt n<len> n<cap> x<wire>) ...) ...)   one list of member states per operation *)
@@ -12,24 +13,26 @@ Local Open Scope nat_scope.
 
 Record hrun_state := mkhr { hr_st : hstate; hr_next0 : N; hr_next1 : N }.
 
-Definition dec_hop (s : hrun_state) (op : val) : option hop * hrun_state :=
+Definition dec_hop (s : hrun_state) (op : val) : list hop * hrun_state :=
   let t := as_nat (nth_val 1 op) in
   match as_n (nth_val 0 op) with
-  | 0%N => (Some (HAppend t [(mkc (as_b (nth_val 3 op)) (as_bool (nth_val 2 op)), as_nat (nth_val 4 op))]), s)
-  | 1%N => (Some (HSetID t (as_opt as_b (nth_val 2 op))), s)
-  | 2%N => (Some (HSetType t (as_opt as_b (nth_val 2 op))), s)
-  | 3%N => (Some (HSetRetry t (as_z (nth_val 2 op))), s)
-  | 4%N => (Some (HClone t), s)
-  | 5%N => (Some (HReset t), s)
+  | 0%N => ([HAppend t [(mkc (as_b (nth_val 3 op)) (as_bool (nth_val 2 op)), as_nat (nth_val 4 op))]], s)
+  | 1%N => ([HSetID t (as_opt as_b (nth_val 2 op))], s)
+  | 2%N => ([HSetType t (as_opt as_b (nth_val 2 op))], s)
+  | 3%N => ([HSetRetry t (as_z (nth_val 2 op))], s)
+  | 4%N => ([HClone t], s)
+  | 5%N => ([HReset t], s)
+  | 7%N => (* UnmarshalText("data: <line>\n\n"): reset(), then one data chunk is appended *)
+           ([HReset t; HAppend t [(mkc (as_b (nth_val 2 op)) false, as_nat (nth_val 3 op))]], s)
   | _ =>
       (* ensureID: a message that already has an ID is rejected (nothing happens) *)
       match nth_error (snd (hr_st s)) t with
       | Some m =>
-          if is_set (hm_id m) || (2 <=? as_n (nth_val 2 op))%N then (None, s)
+          if is_set (hm_id m) || (2 <=? as_n (nth_val 2 op))%N then ([], s)
           else if (as_n (nth_val 2 op) =? 0)%N
-               then (Some (HPutAuto t (format_uint (hr_next0 s))), mkhr (hr_st s) (hr_next0 s + 1)%N (hr_next1 s))
-               else (Some (HPutAuto t (format_uint (hr_next1 s))), mkhr (hr_st s) (hr_next0 s) (hr_next1 s + 1)%N)
-      | None => (None, s)
+               then ([HPutAuto t (format_uint (hr_next0 s))], mkhr (hr_st s) (hr_next0 s + 1)%N (hr_next1 s))
+               else ([HPutAuto t (format_uint (hr_next1 s))], mkhr (hr_st s) (hr_next0 s) (hr_next1 s + 1)%N)
+      | None => ([], s)
       end
   end.
 
@@ -42,7 +45,7 @@ Fixpoint run_heap_ops (s : hrun_state) (ops : list val) : list val :=
   | [] => []
   | op :: rest =>
       let '(o, s1) := dec_hop s op in
-      let st' := match o with Some o' => hstep (hr_st s1) o' | None => hr_st s1 end in
+      let st' := fold_left hstep o (hr_st s1) in
       VL (map (enc_member (fst st')) (snd st')) :: run_heap_ops (mkhr st' (hr_next0 s1) (hr_next1 s1)) rest
   end.
 
@@ -52,23 +55,24 @@ Definition run_heap (i : val) : val := VL (run_heap_ops (mkhr ([], [hmsg_empty])
    immutable value the same operations produce (so nobody is changed by an operation on somebody
    else, Put changes nothing but adds the copy with the next ID) ---------------------------- *)
 Record vrun_state := mkvr { vr_fam : list msg; vr_next0 : N; vr_next1 : N }.
-Definition dec_vop_heap (s : vrun_state) (op : val) : option hop * vrun_state :=
+Definition dec_vop_heap (s : vrun_state) (op : val) : list hop * vrun_state :=
   let t := as_nat (nth_val 1 op) in
   match as_n (nth_val 0 op) with
-  | 0%N => (Some (HAppend t [(mkc (as_b (nth_val 3 op)) (as_bool (nth_val 2 op)), 0)]), s)
-  | 1%N => (Some (HSetID t (as_opt as_b (nth_val 2 op))), s)
-  | 2%N => (Some (HSetType t (as_opt as_b (nth_val 2 op))), s)
-  | 3%N => (Some (HSetRetry t (as_z (nth_val 2 op))), s)
-  | 4%N => (Some (HClone t), s)
-  | 5%N => (Some (HReset t), s)
+  | 0%N => ([HAppend t [(mkc (as_b (nth_val 3 op)) (as_bool (nth_val 2 op)), 0)]], s)
+  | 1%N => ([HSetID t (as_opt as_b (nth_val 2 op))], s)
+  | 2%N => ([HSetType t (as_opt as_b (nth_val 2 op))], s)
+  | 3%N => ([HSetRetry t (as_z (nth_val 2 op))], s)
+  | 4%N => ([HClone t], s)
+  | 5%N => ([HReset t], s)
+  | 7%N => ([HReset t; HAppend t [(mkc (as_b (nth_val 2 op)) false, 0)]], s)
   | _ =>
       match nth_error (vr_fam s) t with
       | Some m =>
-          if is_set (m_id m) || (2 <=? as_n (nth_val 2 op))%N then (None, s)
+          if is_set (m_id m) || (2 <=? as_n (nth_val 2 op))%N then ([], s)
           else if (as_n (nth_val 2 op) =? 0)%N
-               then (Some (HPutAuto t (format_uint (vr_next0 s))), mkvr (vr_fam s) (vr_next0 s + 1)%N (vr_next1 s))
-               else (Some (HPutAuto t (format_uint (vr_next1 s))), mkvr (vr_fam s) (vr_next0 s) (vr_next1 s + 1)%N)
-      | None => (None, s)
+               then ([HPutAuto t (format_uint (vr_next0 s))], mkvr (vr_fam s) (vr_next0 s + 1)%N (vr_next1 s))
+               else ([HPutAuto t (format_uint (vr_next1 s))], mkvr (vr_fam s) (vr_next0 s) (vr_next1 s + 1)%N)
+      | None => ([], s)
       end
   end.
 
@@ -77,7 +81,7 @@ Fixpoint holds_heap_ops (s : vrun_state) (ops outs : list val) : bool :=
   | [], [] => true
   | op :: rest, out :: outs' =>
       let '(o, s1) := dec_vop_heap s op in
-      let fam' := match o with Some o' => vstep (vr_fam s1) o' | None => vr_fam s1 end in
+      let fam' := fold_left vstep o (vr_fam s1) in
       val_eqb (VL (map (nth_val 3) (as_l out))) (VL (map enc_wire fam'))
       && holds_heap_ops (mkvr fam' (vr_next0 s1) (vr_next1 s1)) rest outs'
   | _, _ => false
